@@ -82,6 +82,12 @@ def check_case(case):
         spec = decorate(spec_from_forest(case["f"], case["pal"], case.get("pol", 1), 0.37), case["variant"])
     elif fam == "mux":
         spec = mux_spec([tuple(x) for x in case["inputs"]], case["pal"], case["rs_list"], rails=case["rails"], by_rail=case["rails"], order=case["order"], below=case.get("below", "std"))
+    elif fam == "names":   # names that coincide with keys of the file format
+        spec = kind_spec("Converter", dict(vo=3.3, eff=0.9), True)
+        ren = {"S": case["source"], "X": case["comp"]}
+        for c in spec["comps"]:
+            c["n"] = ren.get(c["n"], c["n"])
+            c["p"] = [ren.get(q, q) for q in c["p"]]
     elif fam == "version":
         spec = kind_spec("Converter", dict(vo=3.3, eff=0.9), True)
     s = build_holes(spec) if case.get("holes") else build(spec)
@@ -129,6 +135,8 @@ def check_case(case):
     if isinstance(a["solve_energy"], tuple):
         res.classes.add("original-unsolvable")
     if s2 is None:
+        if fam == "names":
+            res.viol = [(("C12.format-key-as-name", "source=%s" % case["source"], "comp=%s" % case["comp"]) + sig, det) for sig, det in res.viol]
         return res
     b = all_reports(s2, REPORTS)
     for rep, d in diff_reports(a, b, 1e-9, 1e-12)[:6]:  # sums are taken in row order, which a reload may change
@@ -156,6 +164,8 @@ def check_case(case):
                 res.classes.add("resave")
         except ValueError:
             res.classes.add("resave-edit-rejected")
+    if fam == "names":
+        res.viol = [(("C12.format-key-as-name", "source=%s" % case["source"], "comp=%s" % case["comp"]) + sig, det) for sig, det in res.viol]
     s3, doc3, _ = roundtrip(res, s2, "r2")
     if s3 is not None and json.dumps(doc3, sort_keys=True) != json.dumps(save_doc(s2, "r3")[0], sort_keys=True):
         res.v(("C12.save-not-deterministic",), "")
@@ -209,6 +219,8 @@ def gen_cases(tier):
             if k == 2:
                 yield dict(fam="mux", inputs=[list(x) for x in inputs], pal=pal, rs_list=False, rails=False, order=None, remux=True)
                 yield dict(fam="mux", inputs=[list(x) for x in inputs], pal=pal, rs_list=False, rails=False, order=None, remux=True, below="none")
+    for src, comp in (("system", "X"), ("S", "system"), ("type", "params"), ("childs", "limits"), ("S", "parents")):
+        yield dict(fam="names", source=src, comp=comp)
     yield dict(fam="version")
 
 
